@@ -42,10 +42,18 @@ type writeRec struct{ key, ref string }
 type Heap struct {
 	m  map[string]hent
 	ep *epoch
+	// alts: the heap is a merge of heaps from different havoc epochs: a key touched for
+	// the first time after the merge takes, under each condition, the base of that epoch
+	alts []heapAlt
+}
+
+type heapAlt struct {
+	cond string
+	ep   *epoch
 }
 
 func (h *Heap) clone() *Heap {
-	n := &Heap{m: make(map[string]hent, len(h.m)+4), ep: h.ep}
+	n := &Heap{m: make(map[string]hent, len(h.m)+4), ep: h.ep, alts: h.alts}
 	for k, v := range h.m {
 		n.m[k] = v
 	}
@@ -67,7 +75,16 @@ func (x *Exec) hget(h *Heap, key, sort string, idx string) string {
 		}
 		return e.term
 	}
-	t := x.baseFor(h.ep, key, sort, idx)
+	var t string
+	if len(h.alts) > 0 {
+		t = x.baseFor(h.alts[len(h.alts)-1].ep, key, sort, idx)
+		for i := len(h.alts) - 2; i >= 0; i-- {
+			t = ite(h.alts[i].cond, x.baseFor(h.alts[i].ep, key, sort, idx), t)
+		}
+		t = x.g.Fresh(heapArraySort(sort, idx), t)
+	} else {
+		t = x.baseFor(h.ep, key, sort, idx)
+	}
 	h.m[key] = hent{term: t, sort: sort, idx: idx, base: t}
 	return t
 }
@@ -170,14 +187,28 @@ func (x *Exec) mergeHeaps(conds []string, hs []*Heap) *Heap {
 		return hs[0].clone()
 	}
 	ep := hs[0].ep
+	mixed := len(hs[0].alts) > 0
 	for _, h := range hs[1:] {
-		if h.ep != ep {
-			// Different epochs meet (an edge leaves a cut loop while another bypasses it):
-			// keep the innermost common information by materialising keys lazily below.
-			ep = commonEpoch(ep, h.ep)
+		if h.ep != ep || len(h.alts) > 0 {
+			mixed = true
 		}
 	}
 	out := &Heap{m: map[string]hent{}, ep: ep}
+	if mixed {
+		// heaps of different havoc epochs meet (one branch called something that may change
+		// everything, the other did not): a key first touched after the join is, under each
+		// branch's condition, that branch's own base
+		for i, h := range hs {
+			if len(h.alts) > 0 {
+				for _, a := range h.alts {
+					out.alts = append(out.alts, heapAlt{and(conds[i], a.cond), a.ep})
+				}
+			} else {
+				out.alts = append(out.alts, heapAlt{conds[i], h.ep})
+			}
+		}
+		out.ep = commonEpoch(ep, hs[len(hs)-1].ep)
+	}
 	keys := map[string]hent{}
 	for _, h := range hs {
 		for k, v := range h.m {
